@@ -209,9 +209,15 @@ impl MidiReaderInfo {
     }
 }
 
+/// byte at index i; bytes past the end of the data read as 0 (the dump must not panic on a truncated or malformed file)
+fn byte_at(a: &Vec<u8>, i: usize) -> u8 {
+    if i < a.len() { a[i] } else { 0 }
+}
+
 pub fn array_read_str(a: &Vec<u8>, pos: usize, len: usize) -> String {
     let mut s = String::new();
-    let sub_a = a[pos..pos+len].to_vec();
+    let end = std::cmp::min(pos.saturating_add(len), a.len());
+    let sub_a = a[std::cmp::min(pos, end)..end].to_vec();
     match String::from_utf8(sub_a) {
         Ok(s) => s,
         Err(_) => {
@@ -263,9 +269,9 @@ pub fn array_readl_delta_time(a: &Vec<u8>, pos: &mut usize) -> usize {
 
 pub fn dump_midi_event_meta(bin: &Vec<u8>, pos: &mut usize, info: &mut MidiReaderInfo) -> String {
     let p = *pos;
-    let mtype = bin[p];
-    let meta_type = bin[p+1] as usize;
-    let meta_len = bin[p+2] as usize;
+    let mtype = byte_at(bin, p);
+    let meta_type = byte_at(bin, p+1) as usize;
+    let meta_len = byte_at(bin, p+2) as usize;
     match mtype {
         0xFF => {
             let msg = match meta_type {
@@ -275,13 +281,13 @@ pub fn dump_midi_event_meta(bin: &Vec<u8>, pos: &mut usize, info: &mut MidiReade
                 },
                 0x51 => { // tempo
                     // mpq = 60000000 / tempo || mpq * tempo = 60000000 || tempo = 60000000 / mpq
-                    let mpq = (bin[p+3] as usize) << 16  | (bin[p+4] as usize) << 8 | bin[p+5] as usize;
+                    let mpq = (byte_at(bin, p+3) as usize) << 16  | (byte_at(bin, p+4) as usize) << 8 | byte_at(bin, p+5) as usize;
                     let tempo = if mpq == 0 { 0 } else { 60000000 / mpq }; // a tempo event of 0 microseconds has no BPM value
                     format!("Tempo={}", tempo)
                 },
                 0x58 => { // TimeSig
-                    let nn = bin[p + 3] as usize;
-                    let dd = bin[p + 4] as usize;
+                    let nn = byte_at(bin, p + 3) as usize;
+                    let dd = byte_at(bin, p + 4) as usize;
                     info.frac = nn;
                     info.deno = (2i32.wrapping_pow(dd as u32)) as usize;
                     format!("TimeSig={}/{}", info.frac, info.deno)
@@ -355,41 +361,41 @@ pub fn note_no_dec(no: u8) -> String {
 
 pub fn dump_midi_event(bin: &Vec<u8>, pos: &mut usize, info: &mut MidiReaderInfo) -> String {
     let p = *pos;
-    let event_type = bin[p] & 0xF0;
+    let event_type = byte_at(bin, p) & 0xF0;
     match event_type {
         0x80 => { // note on
-            let msg = format!("NoteOff(${:02x},${:02x}) // {}", bin[p+1], bin[p+2], note_no_dec(bin[p+1]));
+            let msg = format!("NoteOff(${:02x},${:02x}) // {}", byte_at(bin, p+1), byte_at(bin, p+2), note_no_dec(byte_at(bin, p+1)));
             *pos += 3;
             msg
         },
         0x90 => { // note off
-            let msg = format!("NoteOn(${:02x},${:02x})  // {},,{}", bin[p+1], bin[p+2], note_no_dec(bin[p+1]), bin[p+2]);
+            let msg = format!("NoteOn(${:02x},${:02x})  // {},,{}", byte_at(bin, p+1), byte_at(bin, p+2), note_no_dec(byte_at(bin, p+1)), byte_at(bin, p+2));
             *pos += 3;
             msg
         },
         0xA0 => {
-            let msg = format!("DirectSMF(${:02x},${:02x},${:02x})", bin[p], bin[p+1], bin[p+2]);
+            let msg = format!("DirectSMF(${:02x},${:02x},${:02x})", byte_at(bin, p), byte_at(bin, p+1), byte_at(bin, p+2));
             *pos += 3;
             msg
         },
         0xB0 => { // CC
-            let msg = format!("CC(${:02x},${:02x})", bin[p+1], bin[p+2]);
+            let msg = format!("CC(${:02x},${:02x})", byte_at(bin, p+1), byte_at(bin, p+2));
             *pos += 3;
             msg
         },
         0xC0 => { // Voice
-            let msg = format!("Voice({}) // ${:02x},${:02x}", bin[p+1] + 1, bin[p], bin[p+1]);
+            let msg = format!("Voice({}) // ${:02x},${:02x}", byte_at(bin, p+1) as usize + 1, byte_at(bin, p), byte_at(bin, p+1));
             *pos += 2;
             msg
         },
         0xD0 => { // Channel after touch
-            let msg = format!("DirectSMF(${:02x},${:02x}) // Channel after touch", bin[p], bin[p+1]);
+            let msg = format!("DirectSMF(${:02x},${:02x}) // Channel after touch", byte_at(bin, p), byte_at(bin, p+1));
             *pos += 2;
             msg
         },
         0xE0 => { // PitchBend
             // PichBend is Little Endian!!
-            let vv: isize = (((bin[p+2] as isize) << 7) | bin[p+1] as isize) - 8192;
+            let vv: isize = (((byte_at(bin, p+2) as isize) << 7) | byte_at(bin, p+1) as isize) - 8192;
             let vv2 = vv + 8192;
             let pb: isize = (vv2 >> 7) & 0x7F;
             let msg = format!("PitchBend({}) /* p{} */", vv, pb);
@@ -453,14 +459,14 @@ pub fn dump_midi(bin: &Vec<u8>, flag_stdout: bool) -> String {
         let mtrk_size = array_read_u32(bin, pos);
         // log(&format!("// [MTrk] track_block_size={}B", mtrk_size));
         pos += 4;
-        let mut time = 0;
+        let mut time: usize = 0;
         // loop track
         let end_pos = pos + mtrk_size as usize;
-        while pos < end_pos || !info.is_eot {
+        while (pos < end_pos || !info.is_eot) && pos < bin.len() {
             let delta_time = array_readl_delta_time(bin, &mut pos);
-            time += delta_time;
+            time = time.wrapping_add(delta_time);
             let beat_base = (timebase as f32 * 4.0 / info.deno as f32) as usize;
-            let beat_base = if beat_base == 0 { timebase } else { beat_base }; // for divisor of zero
+            let beat_base = if beat_base == 0 { std::cmp::max(timebase, 1) } else { beat_base }; // for divisor of zero
             let tick = time % beat_base;
             let base = time / beat_base;
             let frac = if info.frac == 0 { 1 } else { info.frac }; // for divisor of zero
